@@ -10,6 +10,7 @@ import (
 
 	"go.lsp.dev/protocol"
 
+	"github.com/juev/hledger-lsp/internal/parser"
 	"github.com/juev/hledger-lsp/internal/workspace"
 )
 
@@ -79,6 +80,74 @@ func TestVerifWitness_C09_references_from_included_file(t *testing.T) {
 	if !okMain || !okInc || len(locs) != 2 {
 		fmt.Printf("WITNESS-FAILS references to assets:cash asked from inc.journal (root main.journal includes it): got %v, the occurrences are main.journal:3 and inc.journal:2\n", got)
 		return
+	}
+	fmt.Println("WITNESS-HOLDS")
+}
+
+// C08 parser.(*Parser).parseAccountDirective#ensures.account_range: the account of an account directive has a range with an end.
+func TestVerifWitness_C08_account_directive_range(t *testing.T) {
+	content := "account expenses:food\n\n2024-01-01 x\n    expenses:food  1 USD\n    assets:cash\n"
+	j, _ := parser.Parse(content)
+	for _, l := range findAccountReferences("expenses:food", nil, "/tmp/a.journal", j, true) {
+		if l.Range.End.Line > 10 || l.Range.End.Character > 100 {
+			fmt.Printf("WITNESS-FAILS 'account expenses:food': declaration reported with range %v\n", l.Range)
+			return
+		}
+	}
+	fmt.Println("WITNESS-HOLDS")
+}
+
+// C08 server.estimatePayeeRange#ensures.starts_at_description: the payee range covers the payee, whatever precedes it.
+func TestVerifWitness_C08_payee_range_after_code(t *testing.T) {
+	j, _ := parser.Parse("2024-01-01 (123) shop | note\n    expenses:food  1 USD\n    assets:cash\n")
+	tx := &j.Transactions[0]
+	r := estimatePayeeRange(tx, getPayeeOrDescription(tx))
+	if r.Start.Column != 18 || r.End.Column != 22 {
+		fmt.Printf("WITNESS-FAILS '2024-01-01 (123) shop | note': payee \"shop\" (columns 18..22) reported at %d..%d\n", r.Start.Column, r.End.Column)
+		return
+	}
+	fmt.Println("WITNESS-HOLDS")
+}
+
+// C01 server.(*Server).DidChange#ensures.no_stale_templates: inline completion must not use templates of an older text.
+func TestVerifWitness_C01_templates_after_edit(t *testing.T) {
+	s := NewServer()
+	uri := protocol.DocumentURI("file:///t.journal")
+	s.DidOpen(context.Background(), &protocol.DidOpenTextDocumentParams{TextDocument: protocol.TextDocumentItem{URI: uri, Text: "2024-01-01 shop\n    expenses:food  1 USD\n    assets:cash\n"}})
+	s.getPayeeTemplates(uri, "2024-01-01 shop\n    expenses:food  1 USD\n    assets:cash\n")
+	s.DidChange(context.Background(), &protocol.DidChangeTextDocumentParams{
+		TextDocument:   protocol.VersionedTextDocumentIdentifier{TextDocumentIdentifier: protocol.TextDocumentIdentifier{URI: uri}},
+		ContentChanges: []protocol.TextDocumentContentChangeEvent{{Text: "2024-01-01 cafe\n    expenses:coffee  2 USD\n    assets:cash\n"}},
+	})
+	doc, _ := s.GetDocument(uri)
+	tpl := s.getPayeeTemplates(uri, doc)
+	if _, stale := tpl["shop"]; stale {
+		fmt.Println("WITNESS-FAILS after replacing the text (payee shop -> cafe) the templates still list \"shop\"")
+		return
+	}
+	fmt.Println("WITNESS-HOLDS")
+}
+
+// C15 server.(*Server).WorkspaceSymbol: fresh servers given the same open documents give identical answers.
+func TestVerifWitness_C15_workspace_symbol_order(t *testing.T) {
+	first := ""
+	for k := 0; k < 40; k++ {
+		s := NewServer()
+		for i := 0; i < 8; i++ {
+			uri := protocol.DocumentURI(fmt.Sprintf("file:///d%d.journal", i))
+			s.DidOpen(context.Background(), &protocol.DidOpenTextDocumentParams{TextDocument: protocol.TextDocumentItem{URI: uri, Text: fmt.Sprintf("account a%d\n", i)}})
+		}
+		syms, _ := s.WorkspaceSymbol(context.Background(), &protocol.WorkspaceSymbolParams{Query: ""})
+		got := ""
+		for _, sy := range syms {
+			got += sy.Name + " "
+		}
+		if k == 0 {
+			first = got
+		} else if got != first {
+			fmt.Printf("WITNESS-FAILS 8 open documents: server 1 answered %q, server %d answered %q\n", first, k+1, got)
+			return
+		}
 	}
 	fmt.Println("WITNESS-HOLDS")
 }
